@@ -125,6 +125,10 @@ inductive Leaf
   | other
   deriving DecidableEq, Repr, Inhabited
 
+/-- what one field comes out as: one value, or the elements of a []string / [][]byte -/
+inductive FOut | one (l : Leaf) | many (ls : List Leaf)
+  deriving DecidableEq, Repr, Inhabited
+
 def keyFor (k : Keys) (ek : Option EventKeys) : Option (Nat × Option Nat) :=
   match ek with
   | some e => match e.derivedFrom with
@@ -144,7 +148,10 @@ def infoFor (k : Keys) (ek : Option EventKeys) : Option Nat :=
 
 /-! ### flat struct payloads -/
 
-inductive FKind | str (m : Nat) | bytes (m : Option Nat) | other
+inductive FKind
+  | str (m : Nat) | bytes (m : Option Nat) | other
+  | strs (ms : List Nat)              -- []string
+  | bss (ms : List (Option Nat))      -- [][]byte, none = nil element
   deriving DecidableEq, Repr, Inhabited
 
 structure Field where
@@ -153,26 +160,53 @@ structure Field where
   kind : FKind
   deriving DecidableEq, Repr, Inhabited
 
-/-- one field through `filterField` / `filterValue`; `none` = Process fails -/
-def filterOne (k : Keys) (ek : Option EventKeys) (ov : Overrides) (f : Field) : Option Leaf :=
-  let leaf : Leaf := match f.kind with
-    | .str m => .plain m
-    | .bytes (some m) => .plain m
-    | .bytes Option.none => .nilBytes
-    | .other => .other
-  if !f.exported then some leaf
-  else match f.kind with
-    | .other => some leaf
-    | .bytes Option.none => (match action (fromTag f.tag ov) with | .error => some leaf | _ => some leaf)
-    | .str m | .bytes (some m) =>
-      match action (fromTag f.tag ov) with
-      | .keep => some (.plain m)
-      | .redact => some .redacted
-      | .encrypt => (keyFor k ek).map (fun key => .enc key m)
-      | .hmac => (keyFor k ek).map (fun key => .mac key (saltFor k ek) (infoFor k ek) m)
-      | .error => Option.none
+/-- one settable string / []byte value through `filterValue`; `none` = error -/
+def filterLeaf (k : Keys) (ek : Option EventKeys) (a : Action) (m : Nat) : Option Leaf :=
+  match a with
+  | .keep => some (.plain m)
+  | .redact => some .redacted
+  | .encrypt => (keyFor k ek).map (fun key => .enc key m)
+  | .hmac => (keyFor k ek).map (fun key => .mac key (saltFor k ek) (infoFor k ek) m)
+  | .error => Option.none
 
-def filterFields (k : Keys) (ek : Option EventKeys) (ov : Overrides) : List Field → Option (List Leaf)
+/-- `filterSlice`: every element in turn, the first error aborts; nil []byte elements are skipped -/
+def filterElems (k : Keys) (ek : Option EventKeys) (a : Action) : List (Option Nat) → Option (List Leaf)
+  | [] => some []
+  | Option.none :: rest => (filterElems k ek a rest).map (Leaf.nilBytes :: ·)
+  | some m :: rest =>
+    match filterLeaf k ek a m with
+    | Option.none => Option.none
+    | some l => (filterElems k ek a rest).map (l :: ·)
+
+def rawElem : Option Nat → Leaf
+  | some m => .plain m
+  | Option.none => .nilBytes
+
+/-- the field as it is, unfiltered -/
+def rawField : FKind → FOut
+  | .str m => .one (.plain m)
+  | .bytes (some m) => .one (.plain m)
+  | .bytes Option.none => .one .nilBytes
+  | .other => .one .other
+  | .strs ms => .many (ms.map .plain)
+  | .bss ms => .many (ms.map rawElem)
+
+/-- one field through `filterField` / `filterValue` / `filterSlice`; `none` = Process fails -/
+def filterOne (k : Keys) (ek : Option EventKeys) (ov : Overrides) (f : Field) : Option FOut :=
+  if !f.exported then some (rawField f.kind)
+  else match f.kind with
+    | .other => some (.one .other)
+    | .bytes Option.none => some (.one .nilBytes)
+    | .str m => (filterLeaf k ek (action (fromTag f.tag ov)) m).map .one
+    | .bytes (some m) => (filterLeaf k ek (action (fromTag f.tag ov)) m).map .one
+    | .strs ms =>
+      if (fromTag f.tag ov).cls = .pub then some (rawField f.kind)
+      else (filterElems k ek (action (fromTag f.tag ov)) (ms.map some)).map .many
+    | .bss ms =>
+      if (fromTag f.tag ov).cls = .pub then some (rawField f.kind)
+      else (filterElems k ek (action (fromTag f.tag ov)) ms).map .many
+
+def filterFields (k : Keys) (ek : Option EventKeys) (ov : Overrides) : List Field → Option (List FOut)
   | [] => some []
   | f :: fs =>
     match filterOne k ek ov f, filterFields k ek ov fs with
@@ -185,7 +219,7 @@ def effOps (ov : Overrides) : List Op :=
 
 inductive Res
   | same                          -- the very same event is forwarded (nothing to do)
-  | filtered (ls : List Leaf)     -- a filtered copy is forwarded
+  | filtered (ls : List FOut)     -- a filtered copy is forwarded
   | error
   deriving DecidableEq, Repr, Inhabited
 
